@@ -15,7 +15,9 @@ RULE = ('part A: every single failure placement (missing / reader error / parse 
         'of the real compile() (real AnyFileBorrower / PyFileBorrower around reader doubles) checked '
         'for who is offered, order, flavour, verbatim payload, status, no blocking; part B: real '
         'PyFileBorrower / AnyFileBorrower over FileReader directories holding X, X.py, X.json, X.txt '
-        '... - only files with the borrower\'s extensions are eligible; non-trivial = a borrower '
+        '... - only files with the borrower\'s extensions are eligible; part C: mibdump with 2-4 '
+        '--mib-borrower directories in a non-sorted order, flavours decided by the position of '
+        '--generate-mib-texts: the stored copy is the first matching borrower\'s, verbatim; non-trivial = a borrower '
         'delivered something; distinct = hash(scenario)')
 ASSUMPTIONS = c07.ASSUMPTIONS + ['part B uses real files in a temp directory']
 
@@ -61,7 +63,9 @@ def build(rng, tier):
             elif r < 0.62:
                 table[m] = 'error'
         scn['borrowers'].append({'genTexts': rng.random() < 0.5, 'kind': rng.choice(['any', 'py']),
-                                 'table': table})
+                                 'table': table,
+                                 # the borrower's reader may find the copy under a case variant of the name
+                                 'alias': 'lower' if rng.random() < 0.3 else None})
     for k in ('noDeps', 'genTexts', 'ignoreErrors'):
         if rng.random() < 0.35:
             scn['options'][k] = True
@@ -199,3 +203,93 @@ def run_case(idx, rng, tier, res):
         case_real(idx, rng, tier, res)
     else:
         case_trace(idx, rng, tier, res)
+
+
+def extra(tier, seed, emit):
+    """part C, the command-line path: mibdump with several --mib-borrower directories given in an order
+    that is not the sorted one, both flavours mixed in; a missing / broken module must come out as the
+    verbatim copy of the first borrower (in the order given) whose flavour matches and that holds it"""
+    import random
+    import subprocess
+    from vlib import pipeline
+    res = harness.Result(-1)
+    res.evals = 0
+    rng = random.Random('c19-cli-%s' % seed)
+    base = tempfile.mkdtemp(prefix='verif-c19cli-', dir=env.scratch_root())
+    try:
+        for run in range(12 if tier == "quick" else 60):
+            root = os.path.join(base, 'r%d' % run)
+            src, dst = os.path.join(root, 'src'), os.path.join(root, 'dst')
+            os.makedirs(src)
+            for b in orch.BASE:
+                with open(os.path.join(src, b), 'w') as f:
+                    f.write(pipeline.fixtures()[b])
+            how = rng.choice(['absent', 'synerr', 'untyped'])
+            if how != 'absent':
+                with open(os.path.join(src, 'AA-MIB'), 'w') as f:
+                    f.write(orch.module_text('AA-MIB', [], 'disk', how))
+            with open(os.path.join(src, 'BB-MIB'), 'w') as f:
+                f.write(orch.module_text('BB-MIB', [], 'disk', 'ok'))
+            gt = rng.random() < 0.5
+            fmt = rng.choice(['json', 'pysnmp'])
+            ext = {'json': '.json', 'pysnmp': '.py'}[fmt]
+            # directory names chosen so that sorting them reverses / scrambles the order given
+            names = rng.sample(['zz-vendor', 'mm-mirror', 'aa-archive', 'kk-cache'], rng.randint(2, 4))
+            args = ['--mib-source=' + src, '--destination-directory=' + dst, '--destination-format=' + fmt]
+            first = None
+            # mibdump gives a borrower the flavour current when its option is read: those named before
+            # --generate-mib-texts are without-texts repositories, those after it with-texts ones
+            flagpos = rng.randint(0, len(names)) if gt else None
+            for bi, bn in enumerate(names):
+                if flagpos == bi:
+                    args.append('--generate-mib-texts')
+                flavour = gt and bi >= flagpos
+                bdir = os.path.join(root, bn)
+                os.makedirs(bdir)
+                holds = rng.random() < 0.7
+                text = ('BORROWED AA-MIB from %s\n' if fmt == 'json' else '# borrowed AA-MIB from %s\n') % bn
+                if holds:
+                    with open(os.path.join(bdir, 'AA-MIB' + ext), 'w') as f:
+                        f.write(text)
+                args.append('--mib-borrower=' + bdir)
+                if holds and bool(flavour) == gt and first is None:
+                    first = (bn, text)
+            if flagpos == len(names):
+                args.append('--generate-mib-texts')
+            args += ['--no-python-compile', 'AA-MIB', 'BB-MIB']
+            e = env.child_env()
+            e['PYTHONPATH'] = env.REPO
+            e['HOME'] = root
+            p = subprocess.run([env.PYTHON, os.path.join(env.REPO, 'scripts', 'mibdump.py')] + args, env=e,
+                               stdout=subprocess.PIPE, stderr=subprocess.PIPE, timeout=300, cwd=root)
+            err = p.stderr.decode('utf-8', 'replace')
+            res.evals += 1
+            res.count('cli_borrow_runs')
+            cell = {'borrowers': names, 'args': [a.replace(root, '.') for a in args[3:]], 'genTexts': gt,
+                    'format': fmt, 'defect': how, 'expected_from': first and first[0]}
+            try:
+                with open(os.path.join(dst, 'AA-MIB' + ext)) as f:
+                    onfile = f.read()
+            except OSError:
+                onfile = None
+            if first is None:
+                res.count('cli_nothing_to_borrow')
+                if onfile is not None:
+                    res.violation('cli_borrowed_unexpectedly', 'no borrower of the requested flavour holds AA-MIB, yet '
+                                  '%s was stored: %r\n%r' % ('AA-MIB' + ext, onfile[:60], cell), replay=cell, clause='cli')
+            else:
+                res.count('cli_borrow_expected')
+                if onfile is None:
+                    res.violation('cli_not_borrowed', 'AA-MIB (%s) was not stored although %s holds a copy\n%r\n%s' % (
+                        how, first[0], cell, err[-300:]), replay=cell, clause='cli')
+                elif onfile != first[1]:
+                    res.violation('cli_borrower_order', 'AA-MIB stored as %r, the first matching borrower in the order '
+                                  'given is %s\n%r' % (onfile[:60], first[0], cell), replay=cell, clause='cli')
+            if 'Pre-compiled MIBs borrowed: AA-MIB' not in err.replace('Would be ', '') and first is not None:
+                res.violation('cli_borrow_not_reported', 'AA-MIB not listed as borrowed\n%r\n%s' % (cell, err[-300:]),
+                              replay=cell, clause='cli')
+    finally:
+        shutil.rmtree(base, ignore_errors=True)
+    res.sig = 'cli'
+    res.nontrivial = True
+    emit(res)
